@@ -50,7 +50,43 @@ def unit(state, rs, tid):
     return rel_events(tid, "Unit", fam, state["row"]["res"], fa, fb, {"scale": scale_sl}), 2 * len(pts)
 
 
+def similar_guderley(state, rs, tid):
+    """Guderley: fields depend on x = t_L / r^lambda through the documented prefactors.  lambda is not a parameter: it is
+    read off the solver's own converging-shock trajectory r_s = (-t_L)^(1/lambda) (located from the returned density).  The
+    image of (r, t_L) under a change of length by the factor a is (a r, q t_L) with q = a^lambda; the specification then needs
+    only a and q: density unchanged, velocities x a/q, pressure and energy x (a/q)^2."""
+    import math
+    from . import guderley as GD
+    kw = G.kwargs(state)
+    t = E.qf(state["t"])
+    a = E.qf(rs["tratio"])
+    s = G.build("Guderley", kw)
+    tLs = -0.5
+    def rho(r):
+        return G.fields(G.call(s, np.asarray(r, float), GD.FACTOR * (tLs + 1.0)))["density"]
+    grid = np.linspace(0.02, 1.5, 400)
+    v = rho(grid)
+    i = int(np.argmax(np.abs(np.diff(np.log(v)))))
+    lo, hi = grid[i], grid[i + 1]
+    for _ in range(9):
+        xs = np.linspace(lo, hi, 18)
+        w = rho(xs)
+        q_ = int(np.argmax(np.abs(np.diff(np.log(w)))))
+        lo, hi = xs[q_], xs[q_ + 1]
+    lam = math.log(-tLs) / math.log(0.5 * (lo + hi))
+    tL = t / GD.FACTOR - 1.0
+    q = a ** lam
+    pts = G.request("Guderley", kw, t)
+    sa = G.call(s, pts, t)
+    sb = G.call(G.build("Guderley", kw), pts * a, GD.FACTOR * (q * tL + 1.0))
+    fa, fb = G.fields(sa), G.fields(sb)
+    extra = {"tratio": E.sl(q), "lratio": E.sl(a), "geometry": state["geometry"], "omega": [0, 1]}
+    return rel_events(tid, "Similar", "Guderley", state["row"]["res"], fa, fb, extra), 2 * len(pts) + 400 + 9 * 18
+
+
 def similar(state, rs, tid):
+    if state["fam"] == "Guderley":
+        return similar_guderley(state, rs, tid)
     fam = state["fam"]
     kw = G.kwargs(state)
     t = E.qf(state["t"])
@@ -109,8 +145,14 @@ def boost(state, rs, tid):
     t = E.qf(state["t"])
     U = E.qf(rs["boost"])
     pts = G.request(fam, kw, t)
-    sa = G.call(G.build(fam, kw), pts, t)
     kb = dict(kw, ul=kw["ul"] + U, ur=kw["ur"] + U)
+    if fam != "RiemannIG":
+        # the general-EOS solver tabulates the solution on [xmin, xmax]: the table of the boosted problem is the translated table
+        # (window of 10 t either side of the membrane, the translation U t is a whole number of its cells)
+        x0 = kw.get("xd0", 0.5)
+        kw = dict(kw, xmin=x0 - 10 * t, xmax=x0 + 10 * t)
+        kb = dict(kb, xmin=x0 - 10 * t + U * t, xmax=x0 + 10 * t + U * t)
+    sa = G.call(G.build(fam, kw), pts, t)
     sb = G.call(G.build(fam, kb), pts + U * t, t)
     fa, fb = G.fields(sa), G.fields(sb)
     ua, ub = fa.pop("velocity"), fb.pop("velocity")
